@@ -260,20 +260,71 @@ def u8(s):
     return s.encode("utf-8").decode("latin-1")
 
 
-def impl_iab_lookup(k, rows):
-    import netaddr
-    r = netaddr.IAB(k).registration()
+def _same_or_same_exn(f, g, what):
+    """f() and g() must both raise the same exception class or both return equal values"""
+    def run(h):
+        try:
+            return ("ok", h())
+        except Exception as e:  # noqa
+            return ("exn", type(e).__name__)
+    a, b = run(f), run(g)
+    assert a == b, "%s: %r vs %r" % (what, a, b)
+
+
+def _iab_rec(i):
+    r = i.registration()
     return [r["idx"], u8(r["org"]), [u8(a) for a in r["address"]], r["offset"], r["size"]]
 
 
-def impl_oui_lookup(k, rows):
-    import netaddr
-    o = netaddr.OUI(k)
+def impl_iab_lookup(k, rows):
+    import netaddr, pickle
+    # the same identifier written as hyphenated hex text (the other accepted argument form) must behave identically
+    if 0 <= k < 2 ** 48:
+        h = "%012X" % k
+        text = "-".join(h[i:i + 2] for i in range(0, 12, 2))
+        _same_or_same_exn(lambda: _iab_rec(netaddr.IAB(k)), lambda: _iab_rec(netaddr.IAB(text)), "IAB(int) vs IAB(str)")
+    i = netaddr.IAB(k)
+    out = _iab_rec(i)
+    j = pickle.loads(pickle.dumps(i))
+    assert _iab_rec(j) == out and j == i and not (j != i) and int(j) == int(i) and str(j) == str(i), "IAB pickle round trip"
+    if k >> 36:      # a 48-bit MAC inside the block: EUI(k).info carries the same IAB record and the OUI registration
+        e = netaddr.EUI(k)
+        assert e.is_iab() and _iab_rec(e.iab) == out, "EUI.iab differs from IAB(k)"
+        try:
+            inf = e.info
+        except Exception as x:  # the OUI text is not shipped on every tree; then OUI lookup must fail the same way directly
+            _same_or_same_exn(lambda: netaddr.EUI(k).info, lambda: netaddr.OUI(k >> 24).registration(), "EUI.info vs OUI")
+        else:
+            r = inf["IAB"]
+            assert [r["idx"], u8(r["org"]), [u8(a) for a in r["address"]], r["offset"], r["size"]] == out, "EUI.info['IAB']"
+    return out
+
+
+def _oui_recs(o):
     assert o.reg_count == len(o.records)
     out = []
     for i in range(o.reg_count):
         r = o.registration(i)
         out.append([r["idx"], u8(r["org"]), [u8(a) for a in r["address"]], r["offset"], r["size"]])
+    return out
+
+
+def impl_oui_lookup(k, rows):
+    import netaddr, pickle
+    if 0 <= k <= 0xFFFFFF:
+        h = "%06X" % k
+        _same_or_same_exn(lambda: _oui_recs(netaddr.OUI(k)), lambda: _oui_recs(netaddr.OUI("-".join((h[0:2], h[2:4], h[4:6])))),
+                          "OUI(int) vs OUI(str)")
+    o = netaddr.OUI(k)
+    out = _oui_recs(o)
+    q = pickle.loads(pickle.dumps(o))
+    assert _oui_recs(q) == out and q == o and not (q != o) and int(q) == int(o) and str(q) == str(o), "OUI pickle round trip"
+    assert o == k and o == str(o) and not (o != k), "OUI equality with its int / text form"
+    e = netaddr.EUI(k << 24)
+    assert _oui_recs(e.oui) == out, "EUI.oui differs from OUI(k)"
+    if not e.is_iab():
+        r = e.info["OUI"]
+        assert [r["idx"], u8(r["org"]), [u8(a) for a in r["address"]], r["offset"], r["size"]] == out[0], "EUI.info['OUI']"
     return out
 
 
